@@ -325,6 +325,17 @@ def site_case(item):
                                      data[fld.off + fld.width:])
                 if nd is not None:
                     cases.append(("proof-from-other-handshake", nd))
+            else:
+                # two handshakes with different randoms produced the very
+                # same proof: it does not depend on the handshake at all
+                # and any recorded one can be replayed
+                rec["n"] += 1
+                rec["sigs"].add(("proof-from-other-handshake", ("identical",)))
+                rec["fails"].append((
+                    "proof-from-other-handshake",
+                    "the proof of another handshake (other randoms) is "
+                    "byte-identical to this handshake's: it is accepted and "
+                    "does not depend on the transcript"))
     # signature algorithm field altered (scheme confusion)
     sa = [f for f in fields if f.name in ("sig_alg",)]
     if sa:
